@@ -153,11 +153,11 @@ func ruleMemo(p *Prog, r *Report, rule, prop string, pkgs map[string]bool, floor
 	rows := readTable("memo_audit.tsv", 4)
 	type key struct{ fn, field string }
 	want := map[key]string{}
+	// an audited site is audited for every property that runs the rule
 	for _, row := range rows {
-		if propListed(row[2], prop) {
-			want[key{row[0], row[1]}] = row[3]
-		}
+		want[key{row[0], row[1]}] = row[3]
 	}
+	_ = prop
 	got := map[key]string{}
 	for _, fn := range allModFuncs(p) {
 		if !pkgs[pkgOfFunc(fn)] || fn.Synthetic != "" {
